@@ -16,6 +16,8 @@ class PkgRoot:
         self.root = tempfile.mkdtemp(prefix="zcv-pkgs-", dir=base)
         sys.path.insert(0, self.root)
         self.names = []
+        self.extra_paths = []
+        self.layout = {}        # package name -> what is on disk for it (for replay files)
 
     def fresh_name(self, stem="zcvp"):
         _counter[0] += 1
@@ -36,6 +38,15 @@ class PkgRoot:
         self.names.append(name)
         return name
 
+    def add_raw_component(self, xml, stem="zcvraw"):
+        """a regular package whose component.xml is the given text"""
+        name = self.fresh_name(stem)
+        d = os.path.join(self.root, name)
+        os.makedirs(d)
+        open(os.path.join(d, "__init__.py"), "w").write("# generated\n")
+        open(os.path.join(d, "component.xml"), "w").write(xml)
+        return self._note(name, "<sys.path entry>/%s/__init__.py" % name, "component.xml: " + xml)
+
     def add_plain_package(self):
         name = self.fresh_name("zcvnocomp")
         d = os.path.join(self.root, name)
@@ -50,11 +61,86 @@ class PkgRoot:
         self.names.append(name)
         return name
 
+    # --- importable things that are NOT ordinary component packages.  What the import system hands back for them differs
+    # from the ordinary case in the module's attributes (``__path__`` of a namespace package is not a list, ``__loader__``
+    # of a namespace package cannot read data, a zip-imported package is read through the zip importer), which is what the
+    # loaders look at when a component or a ``package:`` resource cannot be opened.
+    def _note(self, name, *what):
+        self.names.append(name.split(".")[0])
+        self.layout[name] = list(what)
+        return name
+
+    def add_namespace_package(self, nested=False, with_component=False):
+        """a PEP 420 namespace package: a directory on sys.path without __init__.py (nested: a namespace package inside
+        one); with_component: the directory holds a well-formed component.xml all the same"""
+        top = self.fresh_name("zcvns")
+        name = top + ".sub" if nested else top
+        d = os.path.join(self.root, *name.split("."))
+        os.makedirs(d)
+        what = ["<sys.path entry>/%s/ (directory, no __init__.py)" % "/".join(name.split("."))]
+        if with_component:
+            open(os.path.join(d, "component.xml"), "w").write("<component>\n  <sectiontype name='zcvnstype'/>\n</component>\n")
+            what.append("component.xml in it (well formed)")
+        return self._note(name, *what)
+
+    def add_plain_subdirectory(self):
+        """a regular package with a sub-directory that has no __init__.py: importable as <pkg>.<dir> (namespace portion)"""
+        top = self.fresh_name("zcvreg")
+        d = os.path.join(self.root, top)
+        os.makedirs(os.path.join(d, "data"))
+        open(os.path.join(d, "__init__.py"), "w").write("# regular package\n")
+        open(os.path.join(d, "data", "sample.conf"), "w").write("# not a component\n")
+        return self._note(top + ".data", "<sys.path entry>/%s/__init__.py" % top, "<sys.path entry>/%s/data/ (directory, no __init__.py)" % top)
+
+    def add_unreadable_component(self, kind):
+        """a regular package whose component.xml cannot be read as text: 'directory' | 'not-utf8'"""
+        name = self.fresh_name("zcvunread")
+        d = os.path.join(self.root, name)
+        os.makedirs(d)
+        open(os.path.join(d, "__init__.py"), "w").write("# generated\n")
+        if kind == "directory":
+            os.makedirs(os.path.join(d, "component.xml"))
+        else:
+            open(os.path.join(d, "component.xml"), "wb").write(b"<component>\xff\xfe\x80</component>\n")
+        return self._note(name, "<sys.path entry>/%s/__init__.py" % name, "component.xml: " + kind)
+
+    def add_import_error_package(self):
+        """a package whose import is refused with ImportError (what a package with a missing dependency does)"""
+        name = self.fresh_name("zcvimperr")
+        d = os.path.join(self.root, name)
+        os.makedirs(d)
+        open(os.path.join(d, "__init__.py"), "w").write("import zcv_missing_dependency_of_this_package\n")
+        return self._note(name, "<sys.path entry>/%s/__init__.py: 'import zcv_missing_dependency_of_this_package'" % name)
+
+    def add_zip(self):
+        """a zip archive on sys.path holding a package without component.xml, one with a component.xml, and a bare directory
+        (namespace package served by the zip importer); returns the three names"""
+        import zipfile
+        zp = os.path.join(self.root, self.fresh_name("zcvzip") + ".zip")
+        plain, comp, bare = self.fresh_name("zcvzplain"), self.fresh_name("zcvzcomp"), self.fresh_name("zcvzbare")
+        with zipfile.ZipFile(zp, "w") as z:
+            z.writestr(plain + "/__init__.py", "# in a zip, no component\n")
+            z.writestr(comp + "/__init__.py", "# in a zip\n")
+            z.writestr(comp + "/component.xml", "<component>\n  <sectiontype name='zcvziptype'/>\n</component>\n")
+            z.writestr(bare + "/readme.txt", "no __init__.py here\n")
+        sys.path.insert(0, zp)
+        self.extra_paths.append(zp)
+        self._note(plain, "<zip on sys.path>/%s/__init__.py (no component.xml)" % plain)
+        self._note(comp, "<zip on sys.path>/%s/__init__.py + component.xml" % comp)
+        self._note(bare, "<zip on sys.path>/%s/readme.txt (no __init__.py)" % bare)
+        return plain, comp, bare
+
+    def refresh(self):
+        import importlib
+        importlib.invalidate_caches()
+
     def close(self):
-        try:
-            sys.path.remove(self.root)
-        except ValueError:
-            pass
+        for p in [self.root] + self.extra_paths:
+            try:
+                sys.path.remove(p)
+            except ValueError:
+                pass
+            sys.path_importer_cache.pop(p, None)
         for n in list(sys.modules):
             if any(n == x or n.startswith(x + ".") for x in self.names):
                 del sys.modules[n]
